@@ -12,12 +12,14 @@ CONSTANTS
   CSloppy = FALSE
   ResetOnClose = FALSE
   StaleDec = FALSE
+  KeepEntries = FALSE
   Dev = "none"
   MaxLen = 0
   Bursts = {}
   Acts = {"pub", "rpc", "hb", "close"}
 INVARIANT TypeOK
 INVARIANT P_X04_a
+INVARIANT P_X04_aDead
 INVARIANT P_X04_b
 INVARIANT P_X04_c
 INVARIANT P_X04_cStrict
